@@ -127,9 +127,9 @@ def check_history(job):
             if op.code == 30:
                 # must-reject conditions of the property
                 if isinstance(obj, Table):
-                    clash = any(k in [x for t in spec['tables'] for x in _names(t)] for k in _names(obj)) \
-                        or any(obj is t for t in spec['tables'])
-                    if clash:
+                    if any(obj is t for t in spec['tables']):
+                        fail('a table object that is already contained was accepted again (listed twice)', str(op), cls)
+                    elif any(k in [x for t in spec['tables'] for x in _names(t)] for k in _names(obj)):
                         fail('duplicate table name/alias accepted', str(op), cls)
                     spec['tables'].append(obj)
                 elif isinstance(obj, Reference):
